@@ -18,9 +18,20 @@ def gen_request_case(rnd):
     scheme = rnd.choice(["ws", "wss"])
     host = rnd.choice(["example.test", "Example.TEST", "a.b-c.example", "127.0.0.1", "localhost"])
     port = rnd.choice([None, None, 80, 443, 8080, 9001, 65535, 1])
-    path = rnd.choice(["", "/", "/chat", "/a/b/c", "/x%20y", "/p;q"])
-    query = rnd.choice(["", "", "x=1", "a=b&c=d", "q=%C3%A9"])
-    url = "%s://%s%s%s%s" % (scheme, host, "" if port is None else ":%d" % port, path, "?" + query if query else "")
+    path = rnd.choice(["", "/", "/chat", "/a/b/c", "/x%20y", "/p;q", "/a:b@c", "//double", "/[x]"])
+    query = rnd.choice(["", "", "x=1", "a=b&c=d", "q=%C3%A9", "a?b", "u=http://x/y", "k=@:;"])
+    # other spellings of the same target: scheme in capitals, user information (never part of the request), the port
+    # with leading zeros or present but empty, a fragment (never part of the request)
+    k = rnd.random()
+    sch_txt = scheme if k > 0.15 else rnd.choice([scheme.upper(), scheme.capitalize()])
+    userinfo = rnd.choice(["", "", "", "user@", "user:secret@", ":@", "a:b:c@"])
+    port_txt = "" if port is None else ":%d" % port
+    if port is not None and rnd.random() < 0.15:
+        port_txt = ":0%d" % port
+    elif port is None and rnd.random() < 0.15:
+        port_txt = ":"
+    fragment = rnd.choice(["", "", "", "#top", "#a?b=c", "#", "#/x"])
+    url = "%s://%s%s%s%s%s%s" % (sch_txt, userinfo, host, port_txt, path, "?" + query if query else "", fragment)
     protocols = rnd.choice([[], [], ["chat"], ["chat", "superchat"], ["v1.proto", "v2.proto", "v3"]])
     compress = rnd.random() < 0.4
     agent = rnd.choice([None, "TestAgent/1.0", "x"])
@@ -34,6 +45,51 @@ def gen_request_case(rnd):
     sc = dict(cfg=simnet.default_cfg(), steps=[("data", 0, ref6455.handshake_response(simnet.accept_for(key16))), ("eof", 0)], key16=key16, url=url, ws_kwargs=kw, headers=headers, keys=[])
     sc["_exp"] = exp
     return sc
+
+
+def url_readings(rep, model, rnd, tier):
+    """the model's reading of a URL (Url.parse_url and what WebSocket.__init__ derives from it) against the real
+    constructor, on URLs the request family does not produce: odd but legal spellings, and ports urlparse refuses"""
+    if model is None:
+        return
+    import lomond.websocket as W
+    urls = []
+    for _ in range(300 if tier == "quick" else 5000):
+        # (schemes of urllib's uses_params list -- http, https, ftp, ... -- additionally lose a ";params" suffix of the path; lomond takes
+        #  only the authority from URLs of such schemes (the proxy), so the model does not follow that)
+        scheme = rnd.choice(["ws", "wss", "WS", "wSs", "wsx", "ws+unix", "w-s.1"])
+        host = rnd.choice(["h", "Example.TEST", "a_b", "x.y.z", "127.0.0.1", "h%41", "h~!$&'()*+,;="])
+        userinfo = rnd.choice(["", "", "u@", "u:p@", ":@", "@", "a@b@", "u:p:q@", "U%40x:P@"])
+        port = rnd.choice(["", "", ":", ":0", ":1", ":80", ":080", ":443", ":65535", ":65536", ":99999", ":+1", ":-1", ":8o", ": 80", ":1_0", ":٣", ":1e3", ":0x50",
+                           ":%d" % rnd.randrange(0, 70000)])
+        path = rnd.choice(["", "/", "/p", "/p/q;r", "/p:q@r", "//", "/%zz", "/a[b]c"])
+        query = rnd.choice(["", "", "?", "?x", "?x=1&y=2", "?a?b", "?a#b", "?/x:y@z"])
+        fragment = rnd.choice(["", "", "#", "#f", "#f?g", "#f#g"])
+        urls.append("%s://%s%s%s%s%s%s" % (scheme, userinfo, host, port, path, query, fragment))
+    urls += ["ws://h", "ws://h/", "wss://h", "ws://H:", "ws://h:0/", "ws://h?x", "ws://h#f", "ws://u:p@h:81/a?b#c"]
+    mres = model.run([[38, u.encode("utf-8")] for u in urls])
+    rep.watch_extraction(model, [[38, u.encode("utf-8")] for u in urls[:40]])
+    dis = 0
+    first = None
+    for u, m in zip(urls, mres):
+        rep.add_case(("url", u))
+        if any(ord(ch) > 126 or ord(ch) < 33 for ch in u):
+            rep.count("url_reading", "outside the modelled domain")
+            continue
+        try:
+            ws = W.WebSocket(u, proxies={})
+            impl = [ws.scheme.encode(), (ws.host or "").encode(), ws.port, ws.resource.encode(), 1 if ws.is_secure else 0]
+        except ValueError:
+            impl = None
+        mod = None if not m else [m[0], m[3], m[8], m[7], m[9]]
+        rep.count("url_reading", "refused" if impl is None else "read")
+        if impl != mod:
+            dis += 1
+            first = first or (u, impl, mod)
+    if dis and not rep.violations:
+        rep.broken("correspondence C10:url-readings: the model's reading of %d URLs differs from WebSocket.__init__; first %r" % (dis, first))
+    rep.families.append(dict(name="C10:url-readings", cases=len(urls), disagreements=dis,
+                             rule="URL spellings (scheme case and characters, user information, empty/zero/zero-padded/out-of-range/non-numeric ports, delimiters inside path, query and fragment): scheme, host, port, resource and secure flag of the real WebSocket against the model's parse_url; a ValueError of the constructor against the model's refusal"))
 
 
 def parse_request(raw):
@@ -333,25 +389,129 @@ def fresh_keys():
     return [[l for l in r.split(b"\r\n") if l.lower().startswith(b"sec-websocket-key")][0].split(b":")[1].strip() for r in seen]
 
 
+def real_key_and_verdicts(key16, accepts):
+    """the real WebSocket with os.urandom on a tape, one connection attempt per candidate accept value: the
+    Sec-WebSocket-Key of the written request, and whether the attempt became Ready"""
+    scs = [dict(cfg=simnet.default_cfg(), steps=[("data", 0, ref6455.handshake_response(a)), ("eof", 0)], key16=key16, keys=[]) for a in accepts]
+    res = fam.run_impl_many(scs, parallel=False)
+    key = None
+    for l in (res[0][1].get("request") or b"").split(b"\r\n"):
+        if l.lower().startswith(b"sec-websocket-key:"):
+            key = l.split(b":", 1)[1].strip()
+    return key, [4 in fam.event_codes(tr) for tr, extra in res]
+
+
+def digest_family(rep, model, rnd, tier):
+    """the model's own SHA-1 and base64 (Digest.v) against hashlib/base64 -- the functions lomond calls -- and against the
+    real WebSocket: key derived from os.urandom(16), reply accepted exactly for the accept value the model derives"""
+    if model is None:
+        return
+    lens = list(range(0, 260)) + [rnd.randrange(260, 5000) for _ in range(20 if tier == "quick" else 400)]
+    if tier != "quick":
+        lens += list(range(260, 1200)) + [65535, 65536, 100000]
+    msgs = [bytes(bytearray(rnd.getrandbits(8) for _ in range(n))) for n in lens]
+    msgs += [b"\x00" * n for n in (1, 55, 56, 63, 64, 65, 119, 120)] + [b"\xff" * n for n in (1, 55, 56, 63, 64, 65, 119, 120)]
+    res = model.run([[36, m] for m in msgs] + [[37, m] for m in msgs])
+    rep.watch_extraction(model, [[36, m] for m in msgs[:40]] + [[37, m] for m in msgs[:40]])
+    dis = 0
+    first = None
+    for m, d in zip(msgs, res[:len(msgs)]):
+        rep.add_case(("sha1", m))
+        if d != hashlib.sha1(m).digest():
+            dis += 1
+            first = first or ("sha1", len(m), m[:40].hex())
+    for m, d in zip(msgs, res[len(msgs):]):
+        rep.add_case(("b64", m))
+        if d[0] != base64.b64encode(m) or d[1] != [m]:
+            dis += 1
+            first = first or ("base64", len(m), m[:40].hex())
+    # strict decoding of arbitrary text: canonical base64 is decoded, everything else refused
+    texts = []
+    for _ in range(300 if tier == "quick" else 5000):
+        t = bytearray(base64.b64encode(bytes(bytearray(rnd.getrandbits(8) for _ in range(rnd.randrange(0, 12))))))
+        k = rnd.random()
+        if k < 0.3 and t:
+            t[rnd.randrange(len(t))] = rnd.choice(b"=-_ \n*Az09+/")
+        elif k < 0.4:
+            t = t[:rnd.randrange(len(t) + 1)]
+        elif k < 0.5:
+            t += rnd.choice([b"=", b"==", b"A", b"AA=="])
+        texts.append(bytes(t))
+    tres = model.run([[37, t] for t in texts])
+    for t, d in zip(texts, tres):
+        rep.add_case(("b64-decode", t))
+        try:
+            exp = base64.b64decode(t, validate=True)
+            if base64.b64encode(exp) != t:
+                exp = None      # non-canonical spelling (unused bits set, padding inside): the strict decoder refuses it
+        except Exception:
+            exp = None
+        got = d[2][0] if d[2] else None
+        if got != exp:
+            dis += 1
+            first = first or ("base64-decode", t, got, exp)
+    # the handshake values against the real object
+    keys = [bytes(bytearray(rnd.getrandbits(8) for _ in range(16))) for _ in range(120 if tier == "quick" else 3000)]
+    keys += [b"\x00" * 16, b"\xff" * 16, bytes(bytearray(range(16))), b"\xfb\xef\xbe" * 5 + b"\xfb"]
+    hres = model.run([[34, k] for k in keys])
+    rep.watch_extraction(model, [[34, k] for k in keys[:40]])
+    for k16, (mkey, maccept) in zip(keys, hres):
+        rep.add_case(("handshake-values", k16))
+        other = bytearray(maccept)
+        i = rnd.randrange(0, 27)
+        other[i] = ord("A") if chr(other[i]).lower() != "a" else ord("B")       # another base64 character, not a case variant
+        cands = [maccept, bytes(other), maccept[:-1], maccept + b"=", digest(k16[::-1]) if k16[::-1] != k16 else b"x"]
+        key, verdicts = real_key_and_verdicts(k16, cands)
+        complaint = None
+        if key != base64.b64encode(k16) or len(key) != 24:
+            complaint = "the Sec-WebSocket-Key %r is not the base64 text of the 16 random bytes %s" % (key, k16.hex())
+        elif maccept != digest(k16):
+            complaint = None
+            dis += 1
+            first = first or ("accept_of", k16.hex(), maccept, digest(k16))
+        elif verdicts != [True, False, False, False, False]:
+            complaint = "for the key %r the reply values %r are taken/refused as %r; only the first one is base64(sha1(key + GUID))" % (key, cands, verdicts)
+        if mkey != key and not complaint:
+            dis += 1
+            first = first or ("make_key", k16.hex(), mkey, key)
+        if complaint:
+            rep.violation(complaint, scenario=dict(kind="handshake-values", key16=k16.hex(), candidates=[c.decode("latin-1") for c in cands]), family="C10:digest")
+    if dis and not rep.violations:
+        rep.broken("correspondence C10:digest: the model's SHA-1/base64 and the functions lomond calls differ on %d inputs; first %r" % (dis, first))
+    rep.families.append(dict(name="C10:digest", cases=2 * len(msgs) + len(texts) + len(keys), disagreements=dis,
+                             rule="the model's SHA-1 against hashlib.sha1 and its base64 against base64.b64encode on every length 0..259 (thorough ..1199, 64 KiB, 100 kB) plus random longer inputs and the padding boundaries 55/56/63/64/119/120; strict decoding of damaged base64 text; for random and special 16-byte os.urandom results: the real WebSocket's key equals the model's make_key, and the real on_response accepts a reply carrying the model's accept_of(key) and refuses that value with one character replaced, truncated, extended, and the digest of another key"))
+
+
+def replay_digest(sc):
+    k16 = bytes.fromhex(sc["key16"])
+    cands = [c.encode("latin-1") for c in sc["candidates"]]
+    key, verdicts = real_key_and_verdicts(k16, cands)
+    ok = key == base64.b64encode(k16) and verdicts == [c == digest(k16) for c in cands]
+    print("key", key, "verdicts", verdicts)
+    print("REPLAY:", "property holds on this input" if ok else "VIOLATION reproduced: key or accept verdicts differ from base64/SHA-1 of the key")
+    return 0 if ok else 1
+
+
 def run(rep, info, model, tier, seed):
     rnd = random.Random(seed)
     proof_ok = rep.proof_obligations(info, "props/C10.v")
-    rep.assumptions += ["SHA-1/base64 are outside the model: the expected accept value is computed by hashlib in the harness from the request actually written",
+    rep.assumptions += ["SHA-1 and base64 are inside the model (Digest.v) and compared with hashlib/base64 and with the real object on every run; the theorems say nothing about SHA-1's collision resistance",
                         "status lines are HTTP-version SP 3DIGIT SP reason; lomond's tolerant int() ('+101', '1_01') is outside the quantifier"]
     # ---- requests
     nreq = 400 if tier == "quick" else 5000
     reqs = [gen_request_case(rnd) for _ in range(nreq)]
     import lomond.constants as LC
     fam.run_family(rep, None, "C10:requests", reqs, request_oracle,
-                   rule="URL shapes (ws/wss x host case x default/explicit port x path x query) x protocols x compress x agent x custom headers x random 16-byte key; the written request is parsed by a strict HTTP/1.1 parser in the harness and every required header checked; compared byte-for-byte with the model's build_request")
+                   rule="URL shapes (ws/wss in either letter case x user information x host case x default/explicit/zero-padded/empty port x path x query x fragment) x protocols x compress x agent x custom headers x random 16-byte key; the written request is parsed by a strict HTTP/1.1 parser in the harness and every required header checked; compared byte-for-byte with the model's build_request")
     if model is not None:
         res = fam.run_impl_many([fam.strip_meta(s) for s in reqs[:nreq]])
         mreq = []
         for sc in reqs:
             e = sc["_exp"]
-            mreq.append([30, e["resource"].encode(), e["host"].encode(), e["port"], base64.b64encode(e["key16"]), (e["agent"] or LC.USER_AGENT).encode(),
+            # the model reads the URL itself (Url.parse_url) and derives the key from the 16 random bytes (Digest.make_key)
+            mreq.append([39, sc["url"].encode(), e["key16"], (e["agent"] or LC.USER_AGENT).encode(),
                          [[h, v] for h, v in e["headers"]], [p.encode() for p in e["protocols"]], 1 if e["compress"] else 0, 13])
-        mres = model.run(mreq)
+        mres = [m[0] if m else None for m in model.run(mreq)]
         rep.watch_extraction(model, mreq)
         dis = 0
         for sc, (tr, extra), m in zip(reqs, res, mres):
@@ -361,6 +521,8 @@ def run(rep, info, model, tier, seed):
                     first = (sc.get("url"), extra.get("request"), m)
         if dis and not rep.violations:
             rep.broken("correspondence C10:requests: model build_request differs from the implementation on %d requests; first: %r" % (dis, first))
+    digest_family(rep, model, rnd, tier)
+    url_readings(rep, model, rnd, tier)
     # fresh key per connection on the same object
     ks = fresh_keys()
     rep.add_case("fresh-key")
@@ -385,6 +547,8 @@ def run(rep, info, model, tier, seed):
 
 def replay(body):
     sc = fam.unjson_sc(body["scenario"])
+    if sc.get("kind") == "handshake-values":
+        return replay_digest(body["scenario"])
     if sc.get("kind") == "reconnect":
         import lomond.websocket as W
         ws = W.WebSocket("ws://example.test/chat")
